@@ -11,6 +11,7 @@ ALL_KINDS = [
     "memory.if_attribute_equal(ABC,abc)", "memory.if_attribute_not_equal(ABC,abc)",
     "memory.if_contains(ABC)+file", "memory+memory",
     "store_mem_nested.if_not_contains(abc)", "file.if_not_contains(abc)", "shared_memory.if_contains(ABC)+if_not_contains(ABC)",
+    "memory.if_contains(ABC)+memory.if_not_contains(abc)+memory",
 ]
 FILE_BACKED = {"file", "xor", "fernet", "store_file_nested", "store_file_flat", "memory.if_contains(ABC)+file",
                "file.if_not_contains(abc)"}
@@ -93,6 +94,9 @@ def build(kind, scratch):
     if kind == "file.if_not_contains(abc)":
         d = _dir(scratch, "fn")
         return BuiltCache(FileCache(d).if_not_contains("abc"), [d], kind)
+    if kind == "memory.if_contains(ABC)+memory.if_not_contains(abc)+memory":
+        # three members, laid out like the rules of the repository's own cache test
+        return BuiltCache(MemoryCache().if_contains("ABC") + MemoryCache().if_not_contains("abc") + MemoryCache(), [], kind)
     if kind == "shared_memory.if_contains(ABC)+if_not_contains(ABC)":
         c = MemoryCache()  # one back-end behind both conditions: the usual way to write an OR of conditions
         return BuiltCache(c.if_contains("ABC") + c.if_not_contains("ABC"), [], kind)
